@@ -1018,6 +1018,38 @@ def unique_rules(model, R):
                           f'{src(arg)[:100]} filters only against the names already present',
                           extra={'consequence': 'a new name that occurs twice in the argument is stored twice: duplicate rows/columns'})
                     decided = True
+        # a writer that can drop members from _items (filtered rebuild, clear) and never touches _seen: the membership
+        # set keeps the dropped names, so a later add() of such a name is skipped and ``in`` stays true
+        seen_w = [e for e in writes if e.field == '_seen']
+        if not decided and not seen_w:
+            for e in writes:
+                if e.field != '_items':
+                    continue
+                drops = None
+                if e.op == 'clear':
+                    drops = 'self._items.clear()'
+                elif e.op == 'assign' and e.args:
+                    val = menv.expand(e.args[0])
+                    if isinstance(val, ast.ListComp) and len(val.generators) == 1 and val.generators[0].ifs \
+                            and chain(menv.expand(val.generators[0].iter, alias_only=True)) in (['self', '_items'], ['self'])\
+                            and isinstance(val.elt, ast.Name) and isinstance(val.generators[0].target, ast.Name) \
+                            and val.elt.id == val.generators[0].target.id:
+                        tests = []
+                        for c_ in val.generators[0].ifs:
+                            tests += _flatten_and(c_)
+                        # a filter against a collection other than the object's own containers can reject kept items
+                        foreign = [c_ for c_ in tests if isinstance(strip_not(c_)[0], ast.Compare)
+                                   and isinstance(strip_not(c_)[0].ops[0], (ast.In, ast.NotIn))
+                                   and src(menv.expand(strip_not(c_)[0].comparators[0], alias_only=True)) not in ('self._seen', 'self._items', 'self')]
+                        if foreign and len(foreign) == len(tests):
+                            drops = src(val)[:100]
+                if drops:
+                    R.bad('UNIQUE-INVARIANT', mfunc, e.node, f'{mname}: _seen follows every change of membership of _items',
+                          'a write of self._seen in the same method (self._seen is the set of self._items at every exit)',
+                          f'{drops} may drop items; no write of self._seen in {mname}',
+                          extra={'consequence': 'a dropped name stays in _seen: a later add() skips it and membership tests stay true'})
+                    decided = True
+                    break
         if not decided and model.fully_inlined(mfunc):
             decided = True
         if not decided:
